@@ -712,6 +712,8 @@ class Ev:
                 return T.I(x)
             if solver.entails(st.pc, self.int_range_cond(v, dst)):
                 return v
+            if dst == 'u8' and rs[0] == 0:
+                return T.mk_byte(0, v)      # (x >> 8k) as u8 / x as u8: a byte of x, exact by definition
             if rd[0] == 0:
                 bits = (rd[1] + 1).bit_length() - 1
                 t = ('trunc', bits, v)
